@@ -27,12 +27,39 @@ pub fn check(a: &Analysis, aux: &mut Aux, t: &mut Tally) -> Vec<Violation> {
         let j = (x % (i as u64 + 1)) as usize;
         order.swap(i, j);
     }
-    // stable partition: TCP data first (state-dependent), then the rest
-    order.sort_by_key(|i| match &a.steps[*i].tcp {
-        Some(ti) if ti.class == TcpClass::Data => 0,
-        Some(_) => 1,
-        None => 2,
+    // application payloads that were delivered before on another tuple: the frames most likely to
+    // show state that is shared under too small a key
+    let mut seen: std::collections::BTreeMap<&[u8], Vec<usize>> = std::collections::BTreeMap::new();
+    let mut repeat = vec![false; n];
+    for (i, s) in a.steps.iter().enumerate() {
+        if let Some(pl) = app_payload(s) {
+            if pl.len() >= 8 {
+                let e = seen.entry(pl).or_default();
+                if e.iter().any(|j| tuple_of(&a.steps[*j]) != tuple_of(s)) {
+                    repeat[i] = true;
+                    t.probe("payload-seen-before-on-another-tuple");
+                }
+                e.push(i);
+            }
+        }
+    }
+    // stable partition: repeated payloads, then TCP data (state-dependent), then the rest
+    order.sort_by_key(|i| {
+        if repeat[*i] {
+            return 0;
+        }
+        match &a.steps[*i].tcp {
+            Some(ti) if ti.class == TcpClass::Data => 1,
+            Some(_) => 2,
+            None => 3,
+        }
     });
+    // at most half of the budget goes to repeated payloads
+    let nrep = order.iter().take_while(|i| repeat[**i]).count();
+    if nrep > aux.samples / 2 {
+        let extra: Vec<usize> = order.drain(aux.samples / 2..nrep).collect();
+        order.extend(extra);
+    }
     let mut done = 0;
     for si in order {
         if done >= aux.samples {
@@ -163,4 +190,23 @@ pub fn check(a: &Analysis, aux: &mut Aux, t: &mut Tally) -> Vec<Violation> {
         }
     }
     v
+}
+
+fn app_payload(s: &crate::model::StepInfo) -> Option<&[u8]> {
+    use crate::wire::L4;
+    match &s.req.l4 {
+        L4::Tcp(t) if t.pay_len > 0 && t.pay_off + t.pay_len <= s.raw.len() => Some(&s.raw[t.pay_off..t.pay_off + t.pay_len]),
+        L4::Udp(u) if u.pay_len > 0 && u.pay_off + u.pay_len <= s.raw.len() => Some(&s.raw[u.pay_off..u.pay_off + u.pay_len]),
+        _ => None,
+    }
+}
+
+fn tuple_of(s: &crate::model::StepInfo) -> (Option<std::net::IpAddr>, Option<std::net::IpAddr>, u16, u16) {
+    use crate::wire::L4;
+    let (sp, dp) = match &s.req.l4 {
+        L4::Tcp(t) => (t.sport, t.dport),
+        L4::Udp(u) => (u.sport, u.dport),
+        _ => (0, 0),
+    };
+    (s.req.ip_src(), s.req.ip_dst(), sp, dp)
 }
